@@ -20,6 +20,7 @@ type PreFile struct {
 	Path  string `json:"path"`
 	Data  []byte `json:"data,omitempty"`
 	IsDir bool   `json:"dir,omitempty"`
+	Link  string `json:"link,omitempty"` // symbolic link to this (relative) target
 }
 
 // World is one run of the simulator: a disk and a sequence of lifetimes.
@@ -358,6 +359,14 @@ func runWorld(env *Env, w *World) *Outcome {
 			continue
 		}
 		os.MkdirAll(filepath.Dir(dst), 0o755)
+		if pf.Link != "" {
+			if err := os.Symlink(pf.Link, dst); err != nil {
+				out.Infra = err.Error()
+				return out
+			}
+			d.Other[pf.Path] = []byte(world.LinkMarker + pf.Link)
+			continue
+		}
 		if err := os.WriteFile(dst, pf.Data, 0o644); err != nil {
 			out.Infra = err.Error()
 			return out
@@ -719,6 +728,9 @@ func (st *wstate) runLifetime(i int, l *scen.Lifetime) {
 		if strings.Contains(res.Races[0], "Config") || strings.Contains(res.Races[0], "matchStandaloneJSON.go") {
 			props = append(props, "C12")
 		}
+		if strings.Contains(res.Races[0], "tandalone") {
+			props = append(props, "C19") // a race on the standalone path
+		}
 		out.Viol = viol("data-race", i, -1, raceItem(res.Races[0]), props, "race detector report with a go-snaps frame:\n%s", tail2(res.Races[0], 2500))
 		return
 	}
@@ -766,18 +778,35 @@ func (st *wstate) runLifetime(i int, l *scen.Lifetime) {
 		}
 		// a directory that Clean could not list is simply not examined: only the files in
 		// it stop being predicted, everything else is still demanded
+		// ... and a file that Clean could not remove simply stays (listed or not): only that
+		// file stops being predicted
 		onlyReaddir := true
 		badDirs := map[string]bool{}
+		badFiles := map[string]bool{}
 		for _, op := range rep.Ops {
 			if op.Seq > rep.CleanBegin && op.Fault {
-				if op.Kind == "readdir" {
+				switch op.Kind {
+				case "readdir":
 					badDirs[op.Path] = true
-				} else {
+				case "remove":
+					badFiles[op.Path] = true
+				default:
 					onlyReaddir = false
 				}
 			}
 		}
-		readdirOnly := onlyReaddir && len(badDirs) > 0
+		readdirOnly := onlyReaddir && len(badDirs)+len(badFiles) > 0
+		if readdirOnly {
+			for p := range badFiles {
+				if _, ok := st.d.Other[p]; ok {
+					delete(st.d.Other, p)
+					st.d.Multi[p] = &model.MFile{Dirty: true}
+				} else {
+					_, solo := st.d.Solo[p]
+					st.d.MarkDirty(p, solo)
+				}
+			}
+		}
 		if readdirOnly {
 			for p, f := range st.d.Multi {
 				if badDirs[filepath.Dir(p)] {
